@@ -11,9 +11,10 @@ from .registries import Handler
 # algebraic classes of aten ops (trusted table; an op that is not listed makes the analysis undecided)
 MOVE_OPS = {  # pure data movement: commute with a per-tensor scale
     "aten.expand", "aten.permute", "aten.select", "aten.slice", "aten.unsqueeze", "aten.squeeze", "aten.view", "aten._unsafe_view",
-    "aten.reshape", "aten.transpose", "aten.split", "aten.unbind", "aten.chunk", "aten.narrow", "aten.flip", "aten.flatten",
+    "aten.reshape", "aten.transpose", "aten.split", "aten.split_with_sizes", "aten.unbind", "aten.chunk", "aten.narrow", "aten.flip", "aten.flatten",
     "aten.contiguous", "aten.alias", "aten.movedim", "aten.t",
 }
+PERMUTE_OPS = {"aten.transpose", "aten.permute", "aten.movedim", "aten.swapaxes", "aten.swapdims"}  # permutations of the dimensions (aten.t of a matrix has its own exact rule)
 PRESERVE_OPS = {"aten.detach", "aten.clone", "aten._to_copy", "aten.to", "aten.alias", "aten.contiguous"}  # keep geometry
 EWHOM_OPS = {"aten.neg", "aten.relu", "aten.abs"}  # elementwise f with f(s*x) = s*f(x) for s > 0
 JOIN_OPS = {"aten.cat", "aten.stack"}
